@@ -83,6 +83,7 @@ func (c *memConn) Write(p []byte) (int, error) {
 		return 0, errors.New("injected write failure")
 	}
 	c.out = append(c.out, p...)
+	c.cond.Broadcast()
 	return len(p), nil
 }
 
